@@ -61,6 +61,9 @@ def _num(x):
     raise TypeError("not a number: %r" % (x,))
 
 
+EQ_HOOK = None      # set by the obligation runner: equality of two values *on the current path* (which may assume exact equalities)
+
+
 class Poly:
     __slots__ = ("t",)
 
@@ -184,7 +187,11 @@ class Poly:
                 o = as_poly(o)
             except TypeError:
                 return NotImplemented
-        return self.t == o.t
+        if self.t == o.t:
+            return True
+        if EQ_HOOK is not None:
+            return EQ_HOOK(self, o)
+        return False
 
     def __ne__(self, o):
         r = self.__eq__(o)
@@ -231,24 +238,66 @@ class Poly:
         mp = {var_index(k): as_poly(v) for k, v in mapping.items()}
         if not mp:
             return self
-        r = Poly()
+        touched = False
+        acc = {}
         cache = {}
+        # fast path: every substituted value is a single monomial (a constant, a renamed variable, c*y): rewrite the monomials
+        mono = {}
+        for v, q in mp.items():
+            if len(q.t) > 1:
+                mono = None
+                break
+            mono[v] = next(iter(q.t.items())) if q.t else None
+        rules = R.sq_rules
         for m, c in self.t.items():
-            keep = []
-            term = None
-            for v, e in m:
-                if v in mp:
-                    key = (v, e)
-                    if key not in cache:
-                        cache[key] = mp[v] ** e
-                    term = cache[key] if term is None else term * cache[key]
+            if mono is not None:
+                if not any(v in mono for v, e in m):
+                    items = ((m, c),)
                 else:
-                    keep.append((v, e))
-            base = Poly({tuple(keep): c})
-            if term is not None:
-                base = base * term
-            r = r + base
-        return r
+                    touched = True
+                    d = {}
+                    coef = c
+                    for v, e in m:
+                        if v in mono:
+                            if mono[v] is None:
+                                coef = 0
+                                break
+                            m2, c2 = mono[v]
+                            coef = coef * c2 ** e
+                            for v2, e2 in m2:
+                                d[v2] = d.get(v2, 0) + e2 * e
+                        else:
+                            d[v] = d.get(v, 0) + e
+                    if coef == 0:
+                        continue
+                    mm = tuple(sorted(d.items()))
+                    if rules and any(e >= 2 and v in rules for v, e in mm):
+                        items = [(m3, c3 * coef) for m3, c3 in reduce_mono(mm).t.items()]
+                    else:
+                        items = ((mm, coef),)
+            else:
+                keep = []
+                term = None
+                for v, e in m:
+                    if v in mp:
+                        key = (v, e)
+                        if key not in cache:
+                            cache[key] = mp[v] ** e
+                        term = cache[key] if term is None else term * cache[key]
+                    else:
+                        keep.append((v, e))
+                if term is None:
+                    items = ((m, c),)
+                else:
+                    touched = True
+                    items = (Poly({tuple(keep): c}) * term).t.items()
+            for m2, c2 in items:
+                v2 = acc.get(m2, 0) + c2
+                if v2 == 0:
+                    acc.pop(m2, None)
+                else:
+                    acc[m2] = _num(v2)
+        return Poly(acc) if touched else self
 
     # ---------------------------------------------------------------- inspection
     def variables(self):
